@@ -75,13 +75,18 @@ func main() {
 		"pkg/adaptation/adaptation.go":           {sync: true, mapr: true, goFns: []string{"acceptPluginConnections"}},
 		"pkg/adaptation/plugin.go":               {sync: true, mapr: true},
 		"pkg/adaptation/result.go":               {mapr: true},
-		"pkg/stub/stub.go":                       {sync: true, mapr: true},
+		"pkg/stub/stub.go":                       {mapr: true},
 		"pkg/runtime-tools/generate/generate.go": {mapr: true},
-		"pkg/net/conn.go":                        {sync: true},
-		"pkg/net/multiplex/mux.go":               {sync: true, mapr: true},
+		"pkg/net/conn.go":                        {},
+		"pkg/net/multiplex/mux.go":               {mapr: true},
 		"pkg/net/multiplex/ttrpc.go":             {},
 	}
+	// T-sync is applied to the multiplexer only in the fully controlled build: in the base build
+	// its locks are shared with free-running ttrpc goroutines, which would make the enabledness
+	// of a controlled thread depend on their timing
 	if *kind == "mux" {
+		cfg["pkg/net/conn.go"].sync = true
+		cfg["pkg/net/multiplex/mux.go"].sync = true
 		cfg["pkg/net/conn.go"].chans = true
 		cfg["pkg/net/multiplex/mux.go"].chans = true
 		cfg["pkg/net/multiplex/mux.go"].goFns = []string{"newMux"}
